@@ -14,8 +14,8 @@ THEOREMS = [
     "mstack_flush_exact", "mstack_reverse_is_rev", "mstack_push_links_current", "mstack_no_lost_no_dup",
     "distfifo_dcas_snapshot_valid", "distfifo_exactly_once_fifo", "distfifo_pop_returns_taken_value",
     "distfifo_retry_empty_justified", "distfifo_no_lost_no_dup",
-    #MS "multisignal_dcas_snapshot_valid", "multisignal_raise_one_or_remember", "multisignal_wait_blocks_or_consumes",
-    #MS "multisignal_no_lost_no_dup",
+    "multisignal_dcas_snapshot_valid", "multisignal_raise_one_or_remember", "multisignal_wait_blocks_or_consumes",
+    "multisignal_no_lost_no_dup",
 ]
 PUSH, POP, DRAIN = 1, 2, 3
 LFLUSH, FFLUSH, PUSHT = 2, 3, 4
@@ -305,9 +305,10 @@ def mon_distfifo(case, tr, raw):
 
 def mon_msignal(case, tr, raw):
     """a raise releases exactly one waiter (the most recent one) or leaves the
-    signal raised; a wait consumes a raised signal or blocks until released;
+    signal raised; a wait consumes a raised signal or sleeps until released;
     never two waiters per raise, never a raise dropped while a fiber waits;
-    a fiber resumes only after it was released."""
+    a listed fiber does not run; a fiber resumes only after a raise scheduled
+    it, once; nobody sleeps forever unlisted (lost wake-up)."""
     if tr is None:
         return "implementation produced no trace: %s" % (raw or "")[:80]
     params, progs = parse_case(case)
@@ -316,26 +317,44 @@ def mon_msignal(case, tr, raw):
     waiters, raised = [], False
     nxt = {}
     opidx = [0] * nt
-    released = [0] * nt      # releases not yet consumed by a resume
+    released = [0] * nt      # scheduled by a raise, not yet resumed
     asleep = [False] * nt
     pend = [None] * nt
+    last_head = [None] * nt
+    stuck = {}
     for (t, loc, kind, val) in tr:
-        if kind == 919 and val in (7, 8):
-            continue
-        if kind == 919:
-            # resume of a blocked fiber
+        if kind // 10 == 2 and loc == 1:
+            last_head[t] = (val, raised)
+        if kind == 919 and loc == 0:
+            if val in (7, 8):
+                stuck[t] = val
+                continue
             if not asleep[t]:
-                return "fiber %d resumed without sleeping" % t
+                return "fiber %d resumed without sleeping" % (t + 1)
             if released[t] < 1:
-                return "fiber %d resumed without having been released by a raise" % t
+                return "fiber %d resumed without having been scheduled by a raise" % (t + 1)
             released[t] -= 1
             asleep[t] = False
             continue
         if opidx[t] >= len(progs[t]):
             return "thread %d produced events after its last call" % t
         op = progs[t][opidx[t]]
-        if kind // 10 == 1 and loc >= 100 and (loc - 101) % 4 == 0:
-            nxt[(loc - 101) // 4 + 1] = val
+        if asleep[t] and not (kind == 19 and loc == 200 + t and val == -1):
+            return "fiber %d ran while it was in the waiter list / asleep" % (t + 1)
+        if kind == 919 and loc == 11:
+            if pend[t] != "queued":
+                return "fiber %d goes to sleep without being in the waiter list" % (t + 1)
+            asleep[t] = True
+        elif kind == 919 and loc == 12:
+            if not (isinstance(pend[t], tuple) and pend[t][1] == val):
+                return "raise scheduled fiber %d which it did not release" % val
+            if not asleep[val - 1]:
+                return "raise scheduled fiber %d which is not asleep" % val
+            released[val - 1] += 1
+            if released[val - 1] > 1:
+                return "fiber %d scheduled twice" % val
+        elif kind // 10 == 1 and 100 <= loc < 200 and (loc - 101) % 2 == 0:
+            nxt[(loc - 101) // 2 + 1] = val
         elif kind // 10 == 11 and loc == 1:
             if op[0] == WAIT:
                 if raised:
@@ -345,12 +364,13 @@ def mon_msignal(case, tr, raw):
                     pend[t] = "consumed"
                 else:
                     if val != t + 1:
-                        return "wait of fiber %d pushed node %d" % (t, val)
+                        return "wait of fiber %d installed head %d" % (t + 1, val)
                     if (t + 1) in waiters:
-                        return "fiber %d is in the waiter list twice" % t
+                        return "fiber %d is in the waiter list twice" % (t + 1)
                     exp = waiters[0] if waiters else 0
                     if nxt.get(t + 1, 0) != exp:
-                        return "wait published its node with next=%d while the first waiter is %d" % (nxt.get(t + 1, 0), exp)
+                        return ("wait published node %d with next=%d while the first waiter is %d"
+                                % (t + 1, nxt.get(t + 1, 0), exp))
                     waiters.insert(0, t + 1)
                     pend[t] = "queued"
             else:
@@ -359,7 +379,7 @@ def mon_msignal(case, tr, raw):
                     exp = waiters[0] if waiters else 0
                     if val != exp:
                         return ("raise released fiber %d and installed head %d but the next waiter is %d "
-                                "(stale snapshot accepted: ABA)" % (w - 1, val, exp))
+                                "(stale snapshot accepted: ABA, or a raise dropped)" % (w, val, exp))
                     pend[t] = ("woke", w)
                 else:
                     if op[0] == STRICT:
@@ -368,30 +388,28 @@ def mon_msignal(case, tr, raw):
                         return "raise with no waiter installed head %d instead of RAISED" % val
                     raised = True
                     pend[t] = "raised"
-        elif kind == 911:
-            # harness event: loc 1 = fiber goes to sleep, loc 2 = fiber val-1 scheduled
-            if loc == 1:
-                if pend[t] != "queued":
-                    return "fiber %d goes to sleep without being in the waiter list" % t
-                asleep[t] = True
-            elif loc == 2:
-                if not (isinstance(pend[t], tuple) and pend[t][1] == val):
-                    return "raise scheduled fiber %d which it did not release" % (val - 1)
-                released[val - 1] += 1
-                if released[val - 1] > 1:
-                    return "fiber %d released twice" % (val - 1)
         elif kind == 909:
             if op[0] == WAIT:
                 if pend[t] not in ("consumed", "queued"):
                     return "wait returned without consuming a raise or queueing"
-                if asleep[t]:
-                    return "wait returned while the fiber is asleep"
             elif op[0] == RAISE:
                 woke = isinstance(pend[t], tuple)
+                if pend[t] is None and not (last_head[t] == (RAISED, True) and val == 0):
+                    return "raise returned without a successful DCAS and without having seen the signal raised"
                 if val != (1 if woke else 0):
                     return "raise returned %d but %s" % (val, "released a waiter" if woke else "released nobody")
+            else:
+                if not isinstance(pend[t], tuple):
+                    return "raise_strict returned without releasing a waiter"
             pend[t] = None
             opidx[t] += 1
+    if 8 not in stuck.values():
+        for t, v in stuck.items():
+            if v == 7 and (t + 1) not in waiters:
+                return "fiber %d sleeps forever but is not in the waiter list (lost wake-up)" % (t + 1)
+        for w in waiters:
+            if stuck.get(w - 1) != 7:
+                return "fiber %d is in the waiter list but not asleep at the end" % w
     return None
 
 
@@ -546,11 +564,14 @@ def gen_msignal(ctx, tier):
     for a in (WAIT, RAISE, STRICT):
         for b in (WAIT, RAISE):
             for pre in ([], [(RAISE, 0)]):
-                cnt = [4, 4]
-                for il in core.interleavings(cnt):
+                ils = core.interleavings([7, 6])
+                for il in rng.sample(ils, 150 if tier == "quick" else 1000):
                     cases.append(core.fmt_case([0, 300], [pre + [(a, 0)], [(b, 0)], [(RAISE, 0), (RAISE, 0)]],
                                                [0] * (3 * len(pre)) + il))
     n_ex = len(cases)
+    # the schedule of Properties_C20.G.ex_aba_stale_snapshot
+    cases.append(core.fmt_case([0, 300], [[(RAISE, 0)], [(WAIT, 0)], [(WAIT, 0), (WAIT, 0)], [(RAISE, 0), (RAISE, 0)]],
+                               [1] * 7 + [2] * 7 + [0] * 3 + [3] * 12 + [2] * 8 + [0] * 4))
     # stale snapshot + re-wait: raiser 0 reads the cell and stalls after j accesses while waiters
     # are released by raiser 3 and wait again
     n_aba = 0
@@ -585,7 +606,7 @@ HARNESSES = [
     ("lifo", "h_lifo", gen_lifo, mon_lifo),
     ("mstack", "h_mstack", gen_mstack, mon_mstack),
     ("distfifo", "h_distfifo", gen_distfifo, mon_distfifo),
-    #MS ("multisignal", "h_msignal", gen_msignal, mon_msignal),
+    ("multisignal", "h_msignal", gen_msignal, mon_msignal),
 ]
 
 
